@@ -138,6 +138,7 @@ def check_variants(run, moddir, letters, order, golden):
                 spec.update(mode="reuse", prefix=[l, l], depth=2, golden=None, record=True, prealloc=n)
                 tasks.append({"kind": "variant", "letter": l, "seed": s, "prealloc": n, "spec": spec,
                               "hashseed": str(s)})
+    bad = {}  # letter -> list of (seed, prealloc, index, description)
     for kind, r in pmap(work, tasks, seed=run.seed):
         if kind != "ok":
             run.tool_error(f"variant run failed: {r[-600:]}")
@@ -146,14 +147,22 @@ def check_variants(run, moddir, letters, order, golden):
         l = t["letter"]
         for i, rec in enumerate(r["res"]["recorded"]):
             run.count("fresh_variant_compilations")
+            # a variant compilation is a node of the trivial histories [l] / [l, l] in another configuration
+            run.count("states")
+            run.count("transitions")
+            run.count("traces_validated_against_impl")
             if rec["ok"] and rec["text"] == golden[l]["text"]:
                 run.count("fresh_variants_equal")
                 continue
-            what = (f"design '{l}' compiled in a fresh interpreter (PYTHONHASHSEED={t['seed']}, prealloc={t['prealloc']}, "
-                    f"compilation #{i + 1}) differs from the golden bytes: "
-                    + (f"rejected {rec['exc']}: {rec['msg']}" if not rec["ok"] else "different text"))
-            run.violation(f"fresh/{l}/seed={t['seed']}/prealloc={t['prealloc']}/n={i + 1}", what,
-                          {"kind": "variant", "letter": l, "seed": t["seed"], "prealloc": t["prealloc"], "index": i})
+            bad.setdefault(l, []).append((t["seed"], t["prealloc"], i,
+                                          f"rejected {rec['exc']}: {rec['msg']}" if not rec["ok"] else "different text"))
+    for l, lst in sorted(bad.items()):
+        lst.sort()
+        seed, pre, i, desc = lst[0]
+        what = (f"design '{l}' compiled in a fresh interpreter (PYTHONHASHSEED={seed}, prealloc={pre}, "
+                f"compilation #{i + 1}) differs from the golden bytes (PYTHONHASHSEED=0): {desc}; "
+                f"{len(lst)} deviating variant compilations, seeds {sorted({x[0] for x in lst})}")
+        run.violation(f"fresh/{l}", what, {"kind": "variant", "letter": l, "seed": seed, "prealloc": pre, "index": i})
     run.count("fresh_variant_interpreters", len(tasks))
 
 
@@ -302,6 +311,7 @@ def report_minimal(run, devs):
     run.count("deviating_histories_explained_by_shorter", n_expl)
     for (h, v, sig), m in sorted(minimal.items(), key=lambda kv: (len(kv[0][0]), kv[0])):
         d = m["rec"]
+        run.sample({"minimal_deviating_history": list(h), "victim": v, "deviation": sig, "detail": norm_sig(d["sig"])})
         kind = d["kind"]
         if kind == "altered":
             eff = f"is accepted with different bytes (line {d['detail']['line']}: golden `{d['detail']['golden']}` got `{d['detail']['got']}`)"
@@ -351,6 +361,9 @@ def main(run: Run):
         run.assume("a rejected design must be rejected again with the same exception class; its message is allowed to differ")
         run.assume("history tree interpreters run with PYTHONHASHSEED=0; hash seeds are varied in the fresh-interpreter variants")
         run.assume("exhaustive up to the stated history length over the stated alphabet only")
+        run.sample({"history": ["rej_seqctx", "syncflag", "coro"], "mode": "reuse",
+                    "meaning": "each letter is compiled with std.VhdlCompiler.to_string in one interpreter, the last outcome is compared with the fresh-interpreter outcome"})
+        run.sample({"alphabet": {l: letters[l][3] for l in order}})
         if only is None or "variants" in only:
             check_variants(run, moddir, letters, order, golden)
         devs = {m: {} for m in MODES}  # mode -> {(history tuple, victim, kind): record}
@@ -359,9 +372,6 @@ def main(run: Run):
         if (only is None or "corpus" in only) and not os.environ.get("VERIF_C11_LETTERS"):
             check_corpus(run, moddir, letters, order, golden, devs)
         report_minimal(run, devs)
-        run.sample({"history": ["rej_seqctx", "syncflag", "coro"], "mode": "reuse",
-                    "meaning": "each letter is compiled with std.VhdlCompiler.to_string in one interpreter, the last outcome is compared with the fresh-interpreter outcome"})
-        run.sample({"alphabet": {l: letters[l][3] for l in order}})
         if (only is None or "tree" in only) and run.counters.get("traces_validated_against_impl", 0) < 100 \
                 and not os.environ.get("VERIF_C11_LETTERS"):
             run.tool_error("vacuous: fewer than 100 histories compared with golden")
